@@ -49,8 +49,12 @@ def elem_of(name):
 
 
 # ------------------------------------------------------------------------------------------------ meshes
-def build_mesh(v):
-    """v: {'kind', 'p', 't', 'second': 0/1, 'refine': k}"""
+def build_mesh(v, info=None):
+    """v: {'kind', 'p', 't', 'second': 0/1, 'refine': k, 'moves': [...], 'warm': 0/1}.
+    With 'moves' the mesh is first tagged (the tags travel with it), USED (bases, facet bases, a functional: this
+    initialises the lazily created attributes and the cached mapping) and only then moved by the library's own
+    translated / mirrored / scaled / morphed; the moved object is returned as it is.  info['P'] receives the vertex
+    coordinates the moved mesh must have, computed here from the recipe (exact: small integers and halves)."""
     import skfem
     kind = v['kind']
     kw = {'sort_t': False} if kind == 'tri' else {}
@@ -59,6 +63,60 @@ def build_mesh(v):
         m = m.refined(int(v['refine']))
     if v.get('second'):
         m = getattr(skfem, SECOND[kind]).from_mesh(m)
+    if not v.get('moves'):
+        return m
+    reg = v['region']
+    dt = getattr(np, reg.get('dtype', 'int64'))
+    if reg['dom'] == 'cells' and reg['mode'] == 'tag':
+        m = m.with_subdomains({'r': np.array(reg['cells'], dtype=dt)})
+    elif reg['dom'] == 'cells' and reg['mode'] == 'multi':
+        tags = {f'r{j}': np.array(pt['ix'], dtype=dt) for j, pt in enumerate(reg['parts']) if pt['as'] == 'tag'}
+        if tags:
+            m = m.with_subdomains(tags)
+    elif reg['dom'] == 'facets' and reg['mode'] == 'tag':
+        m = m.with_boundaries({'b': np.array(facet_ids(m, reg['fverts']), dtype=dt)})
+    elif reg['dom'] == 'facets' and reg['mode'] == 'multi':
+        tags = {f'b{j}': np.array(facet_ids(m, pt['fverts']), dtype=dt)
+                for j, pt in enumerate(reg['parts']) if pt['as'] == 'tag'}
+        if tags:
+            m = m.with_boundaries(tags)
+    if v.get('warm', 1):
+        from skfem import Basis, FacetBasis, Functional
+        e = elem_of(DEFAULT_ELEM[kind]) if not v.get('second') else m.elem()
+        Functional(lambda w: 1.0 + w.x[0]).assemble(Basis(m, e))
+        if kind != 'wedge':
+            Functional(lambda w: 1.0 + w.x[0]).assemble(FacetBasis(m, e))
+    P = np.array(m.p, dtype=np.float64)
+    for mv in v['moves']:
+        op = mv['op']
+        if op == 'translated':
+            d = [float(x) for x in mv['d']]
+            m = m.translated(tuple(d))
+            P = P + np.array(d)[:, None]
+        elif op == 'mirrored':
+            ax, c, ln = int(mv['axis']), float(mv['c']), float(mv.get('len', 1))
+            n = [0.0] * P.shape[0]
+            n[ax] = ln                                   # the library normalises the normal
+            pt = [0.0] * P.shape[0]
+            pt[ax] = c
+            m = m.mirrored(tuple(n)) if (c == 0 and mv.get('nopoint')) else m.mirrored(tuple(n), tuple(pt))
+            P = P.copy()
+            P[ax] = 2 * c - P[ax]
+        elif op == 'scaled':
+            f = [float(x) for x in mv['f']]
+            m = m.scaled(f)
+            P = P * np.array(f)[:, None]
+        elif op == 'morphed':                             # shear  x_i += k * x_j
+            i, j, k = int(mv['i']), int(mv['j']), float(mv['k'])
+            fs = [None] * P.shape[0]
+            fs[i] = (lambda q, i=i, j=j, k=k: q[i] + k * q[j])
+            m = m.morphed(*fs)
+            P = P.copy()
+            P[i] = P[i] + k * P[j]
+        else:
+            raise MachineryError('unknown move ' + op)
+    if info is not None:
+        info['P'] = P
     return m
 
 
@@ -83,14 +141,14 @@ def make_basis(mesh, v, elemname, order):
         if mode == 'array':
             return Basis(mesh, e, elements=np.array(cells, dtype=dt), **kw), cells
         if mode == 'tag':
-            m2 = mesh.with_subdomains({'r': np.array(cells, dtype=dt)})
+            m2 = mesh if v.get('moves') else mesh.with_subdomains({'r': np.array(cells, dtype=dt)})
             return Basis(m2, e, elements='r', **kw), cells
         if mode == 'named':                      # a tag the (shared) mesh object already carries
             return Basis(mesh, e, elements=reg['name'], **kw), cells
         # mode 'multi': a list / tuple / set of selectors (tags, index arrays, single indices) that may overlap;
         # the region is their union (reg['cells'], sorted)
         tags = {f'r{j}': np.array(pt['ix'], dtype=dt) for j, pt in enumerate(reg['parts']) if pt['as'] == 'tag'}
-        m2 = mesh.with_subdomains(tags) if tags else mesh
+        m2 = mesh.with_subdomains(tags) if (tags and not v.get('moves')) else mesh
         sel = []
         for j, pt in enumerate(reg['parts']):
             sel.append(f'r{j}' if pt['as'] == 'tag' else (int(pt['ix'][0]) if pt['as'] == 'int'
@@ -105,7 +163,7 @@ def make_basis(mesh, v, elemname, order):
     if mode == 'array':
         return FacetBasis(mesh, e, facets=np.array(find, dtype=dt), **kw), find
     if mode == 'tag':
-        m2 = mesh.with_boundaries({'b': np.array(find, dtype=dt)})
+        m2 = mesh if v.get('moves') else mesh.with_boundaries({'b': np.array(find, dtype=dt)})
         return FacetBasis(m2, e, facets='b', **kw), find
     tags, sel = {}, []
     for j, pt in enumerate(reg['parts']):
@@ -117,17 +175,19 @@ def make_basis(mesh, v, elemname, order):
             sel.append(int(ids_[0]))
         else:
             sel.append(ids_)
-    m2 = mesh.with_boundaries(tags) if tags else mesh
+    m2 = mesh.with_boundaries(tags) if (tags and not v.get('moves')) else mesh
     sel = {'list': list, 'tuple': tuple, 'set': set}[reg['container']](sel)
     return FacetBasis(m2, e, facets=sel, **kw), find
 
 
-def geometry(mesh, kind, basis, req, dom):
-    """p (scaled ints), scale, ents (vertex ids of the region's cells / facets, 1-based), reordering info."""
-    sc = find_scale(mesh.p, 2)
+def geometry(mesh, kind, basis, req, dom, P=None):
+    """p (scaled ints), scale, ents (vertex ids of the region's cells / facets, 1-based), reordering info.
+    P: the coordinates the recipe prescribes for a moved mesh (default: the mesh's own)."""
+    P = np.asarray(mesh.p if P is None else P, dtype=np.float64)
+    sc = find_scale(P, 2)
     if sc is None:
         raise MachineryError('generated coordinates are not dyadic')
-    P = np.asarray(mesh.p) * sc
+    P = P * sc
     p = [[int(x) for x in col] for col in np.rint(P).T]
     if dom == 'cells':
         got = [int(x) for x in (basis.tind if basis.tind is not None else np.arange(mesh.t.shape[1]))]
@@ -170,14 +230,16 @@ def exec_integrate(rec, v, mesh=None):
     ev = dict(BASE_EV, a='Integrate', kind=kind, dom=v['region']['dom'], scale=1, p=[], ents=[], alpha=list(v['alpha']),
               order=0, oracle=rec['oracle'], box=v.get('box', []), val=[0] * 5, evals=[], rel=v['rel'], sgn=int(v['sgn']))
 
+    info = {}
+
     def call():
-        msh = mesh if mesh is not None else build_mesh(v)
+        msh = mesh if mesh is not None else build_mesh(v, info)
         elemname = rec.get('elem') or DEFAULT_ELEM[kind]
         basis, req = make_basis(msh, v, elemname, rec.get('order'))
         return _integrate_on(msh, basis, req)
 
     def _integrate_on(mesh, basis, req):
-        p, sc, ents, order, idl = geometry(mesh, kind, basis, req, ev['dom'])
+        p, sc, ents, order, idl = geometry(mesh, kind, basis, req, ev['dom'], info.get('P'))
         ev.update(idl)
         F = monomial_functional(v['alpha'])
         val = F.assemble(basis)
@@ -193,19 +255,54 @@ def exec_integrate(rec, v, mesh=None):
     return ev
 
 
+ROUTES = ['assemble', 'asm', 'nthreads:0', 'nthreads:1', 'nthreads:2', 'nthreads:3', 'nthreads:many', 'coo-tocsr',
+          'coo-todefault', 'elemental-toarray', 'elemental-todefault']
+
+
+def assemble_by(kernel, basis, how, linear=False):
+    """The same form assembled in one of the ways the library offers (all must give the same numbers)."""
+    from skfem import BilinearForm, LinearForm, asm
+    cls = LinearForm if linear else BilinearForm
+    if how.startswith('nthreads:'):
+        k = how.split(':')[1]
+        n = int(basis.Nbfun) ** 2 + 3 if k == 'many' else int(k)        # many: more workers than local pairs
+        return cls(kernel, nthreads=n).assemble(basis)
+    form = cls(kernel)
+    if how == 'assemble':
+        return form.assemble(basis)
+    if how == 'asm':
+        return asm(form, basis)
+    if how == 'coo-tocsr':
+        return form.coo_data(basis).todefault() if linear else form.coo_data(basis).tocsr()
+    if how == 'coo-todefault':
+        return form.coo_data(basis).todefault()
+    if how == 'elemental-toarray':
+        return form.elemental(basis).toarray()
+    if how == 'elemental-todefault':
+        return form.elemental(basis).todefault()
+    raise MachineryError('unknown route ' + how)
+
+
+def dense(A):
+    return np.asarray(A.toarray() if hasattr(A, 'toarray') else A, dtype=np.float64)
+
+
 def exec_masssum(rec, v):
     kind = rec['kind']
     ev = dict(BASE_EV, a='MassSum', kind=kind, dom=v['region']['dom'], scale=1, p=[], ents=[], elem=rec['elem'],
               val=[0] * 5, rel=v['rel'], sgn=1)
 
     def call():
-        from skfem import BilinearForm
-        mesh = build_mesh(v)
+        info = {}
+        mesh = build_mesh(v, info)
         basis, req = make_basis(mesh, v, rec['elem'], rec.get('order'))
-        p, sc, ents, _, idl = geometry(mesh, kind, basis, req, ev['dom'])
+        p, sc, ents, _, idl = geometry(mesh, kind, basis, req, ev['dom'], info.get('P'))
         ev.update(idl)
-        M = BilinearForm(lambda u, w, _: u * w).assemble(basis)
-        tot = sum((fr(x) for x in np.asarray(M.data, dtype=np.float64)), Fraction(0))   # exact sum of all entries
+        how = v.get('how') or rec.get('how') or 'assemble'
+        ev['tags'] = {'how': how}
+        M = assemble_by(lambda u, w, _: u * w, basis, how)
+        data = M.data if hasattr(M, 'tocsr') else M
+        tot = sum((fr(x) for x in np.asarray(data, dtype=np.float64).ravel()), Fraction(0))   # exact sum of all entries
         ev.update(p=p, scale=sc, ents=ents, val=fx_req(tot))
     _, err = guarded(call, 60)
     if err:
@@ -219,12 +316,13 @@ def exec_entries(rec, v):
               edofs=[], lnodes=[], vals=[], rel=v['rel'], sgn=1, elem=rec['elem'])
 
     def call():
-        from skfem import Basis, BilinearForm, LinearForm
+        from skfem import Basis
         from skfem.helpers import dot, grad
-        mesh = build_mesh(v)
+        info = {}
+        mesh = build_mesh(v, info)
         e = elem_of(rec['elem'])
         basis = Basis(mesh, e)
-        p, sc, ents, _, _ = geometry(mesh, kind, basis, list(range(mesh.t.shape[1])), 'cells')
+        p, sc, ents, _, _ = geometry(mesh, kind, basis, list(range(mesh.t.shape[1])), 'cells', info.get('P'))
         deg = int(e.maxdeg)
         d = DIM[kind]
         lnodes = []
@@ -237,14 +335,18 @@ def exec_entries(rec, v):
                 raise ValueError('reference node not on the Lagrange lattice')
             r = [int(x) for x in r]
             lnodes.append([deg - sum(r)] + r)
+        how = v.get('how') or rec.get('how') or 'assemble'
+        ev['tags'] = {'how': how}
         if rec['form'] == 'mass':
-            A = BilinearForm(lambda u, w, _: u * w).assemble(basis).toarray()
+            A = dense(assemble_by(lambda u, w, _: u * w, basis, how))
         elif rec['form'] == 'laplace':
-            A = BilinearForm(lambda u, w, _: dot(grad(u), grad(w))).assemble(basis).toarray()
+            A = dense(assemble_by(lambda u, w, _: dot(grad(u), grad(w)), basis, how))
+        elif rec['form'] == 'loadx':
+            A = dense(assemble_by(lambda w, q: q.x[0] * w, basis, how, linear=True)).ravel()
         else:
-            A = np.asarray(LinearForm(lambda w, _: 1.0 * w).assemble(basis))
+            A = dense(assemble_by(lambda w, _: 1.0 * w, basis, how, linear=True)).ravel()
         N = int(basis.N)
-        if rec['form'] == 'load':
+        if rec['form'] in ('load', 'loadx'):
             vals = [[i + 1, 0] + fx_req(float(A[i])) for i in range(N)]
         else:
             vals = [[i + 1, j + 1] + fx_req(float(A[i, j])) for i in range(N) for j in range(N)]
@@ -283,7 +385,7 @@ def execute(rec):
 def scenario(sid, rec):
     return {'id': sid, 'recipe': rec,
             'tags': {'kind': rec['kind'], 'family': rec['family'], 'driver': rec['driver'], 'elem': rec.get('elem') or '',
-                     'dom': rec['variants'][0]['region']['dom'],
+                     'dom': rec['variants'][0]['region']['dom'], 'how': rec.get('how') or '',
                      'order': rec['order'] if rec.get('order') is not None else ('per-step' if rec['driver'] == 'sequence' else 'default')},
             'events': execute(rec)}
 
@@ -376,6 +478,105 @@ def motion_variant(v, rng, translate=False):
         w['p'] = (p2 + sh[:, None]).astype(int).tolist()
         if 'box' in w:
             w['box'] = [[int(x + s) for x, s in zip(w['box'][0], sh)], [int(x + s) for x, s in zip(w['box'][1], sh)]]
+    return w
+
+
+def moved_variant(v, rng, oracle='cells', int_only=False):
+    """The same scenario on a mesh that was tagged and USED and then moved by the library's translated / mirrored /
+    scaled / morphed (one or two of them, exact integer or dyadic data).  The monomial is kept: the oracle is the
+    closed form over the MOVED domain."""
+    from fractions import Fraction as Fr
+    kind = v['kind']
+    d = DIM[kind]
+    q = sum(v['alpha'])
+    box_mode = ('box' in v) or oracle == 'box'
+    exact_only = int_only or box_mode or oracle == 'sq' or v.get('second')
+    # sums over facets need rational facet measures: only similarities there (no shear, no anisotropic scaling)
+    similar = v['region']['dom'] == 'facets' and oracle != 'sq'
+
+    def draw():
+        moves = []
+        for _ in range(int(rng.integers(1, 3))):
+            r = int(rng.integers(0, 4))
+            if r == 0:
+                dd = [int(x) for x in rng.integers(-3, 4, size=d)]
+                if not exact_only and rng.random() < 0.3:
+                    dd = [x + 0.5 for x in dd]
+                moves.append({'op': 'translated', 'd': dd})
+            elif r == 1:
+                mv = {'op': 'mirrored', 'axis': int(rng.integers(0, d)), 'c': int(rng.integers(-1, 3)),
+                      'len': int(rng.integers(1, 3))}
+                if mv['c'] == 0 and rng.random() < 0.5:
+                    mv['nopoint'] = 1
+                moves.append(mv)
+            elif r == 2:
+                if exact_only or rng.random() < 0.6:
+                    f = [2] * d if (similar or rng.random() < 0.5) else [int(x) for x in rng.integers(1, 3, size=d)]
+                else:
+                    f = [0.5] * d
+                moves.append({'op': 'scaled', 'f': f})
+            elif not box_mode and not similar and d >= 2:
+                i = int(rng.integers(0, d))
+                j = int((i + 1 + rng.integers(0, d - 1)) % d)
+                moves.append({'op': 'morphed', 'i': i, 'j': j, 'k': int(rng.choice([-1, 1]))})
+        return moves
+
+    def apply(moves):
+        P = [[Fr(int(x)) for x in row] for row in v['p']]
+        box = [[Fr(x) for x in side] for side in v['box']] if 'box' in v else None
+        for mv in moves:
+            if mv['op'] == 'translated':
+                for c in range(d):
+                    P[c] = [x + Fr(mv['d'][c]) for x in P[c]]
+                if box:
+                    box = [[x + Fr(mv['d'][c]) for c, x in enumerate(side)] for side in box]
+            elif mv['op'] == 'mirrored':
+                a, cc = mv['axis'], Fr(mv['c'])
+                P[a] = [2 * cc - x for x in P[a]]
+                if box:
+                    lo, hi = 2 * cc - box[1][a], 2 * cc - box[0][a]
+                    box[0][a], box[1][a] = lo, hi
+            elif mv['op'] == 'scaled':
+                for c in range(d):
+                    P[c] = [x * Fr(mv['f'][c]) for x in P[c]]
+                if box:
+                    box = [[x * Fr(mv['f'][c]) for c, x in enumerate(side)] for side in box]
+            else:
+                P[mv['i']] = [x + mv['k'] * y for x, y in zip(P[mv['i']], P[mv['j']])]
+        return P, box
+
+    def safe(P, box):
+        den = max(x.denominator for row in P for x in row)
+        if den not in (1, 2) or (box and any(x.denominator != 1 for side in box for x in side)):
+            return False
+        M = max(abs(x * den) for row in P for x in row)
+        n = q + d
+        if oracle == 'sq':                 # bounds of the per-facet square oracle (32-bit safe limb arithmetic)
+            for f in v['region']['fverts']:
+                pts = [np.array([int(P[c][i]) for c in range(d)]) for i in f]
+                if len(pts) == 2:
+                    j2 = int(((pts[1] - pts[0]) ** 2).sum())
+                else:
+                    cr = np.cross(pts[1] - pts[0], pts[-1] - pts[0])
+                    j2 = int((cr ** 2).sum())
+                if j2 > 32768 or (max(int(M), 1) ** q) ** 2 * j2 > 8000 ** 2:
+                    return False
+        return M <= 64 and max(int(M), 1) ** n < 2 ** 24 and den ** (2 * n) <= 65536 and (den == 1 or not exact_only)
+
+    moves = None
+    for _ in range(8):
+        cand = draw()
+        if cand:
+            P, box = apply(cand)
+            if safe(P, box):
+                moves = cand
+                break
+    if moves is None:                       # always admissible: reflect the first axis at the origin
+        moves = [{'op': 'mirrored', 'axis': 0, 'c': 0, 'len': 1}]
+        P, box = apply(moves)
+    w = dict(v, moves=moves, warm=1, rel='none', sgn=1)
+    if box is not None:
+        w['box'] = [[int(x) for x in side] for side in box]
     return w
 
 
@@ -473,12 +674,13 @@ def regions_cells(nt, rng, k):
     return out
 
 
-def with_variants(v, rng, nnum=1, nmot=1, refine=False, translate=False):
+def with_variants(v, rng, nnum=1, nmot=1, refine=False, translate=False, oracle='cells'):
     vs = [v]
     for _ in range(nnum):
         vs.append(numbering_variant(v, rng))
     for _ in range(nmot):
         vs.append(motion_variant(v, rng, translate=translate))
+    vs.append(moved_variant(v, rng, oracle=oracle))                  # used, then moved by the library
     if refine and v['region']['mode'] in ('all', 'boundary') and v['kind'] != 'wedge':
         vs.append(refine_variant(v))
     return vs
@@ -504,7 +706,7 @@ def gen_integrate(tier, rng):
                     continue
                 if reg['mode'] not in ('all', 'boundary') and 'box' in v:
                     del v['box']
-                recs.append(rec_integrate(kind, fam, with_variants(v, rng, nnum, nmot, refine and q <= 4), orc, order, elem))
+                recs.append(rec_integrate(kind, fam, with_variants(v, rng, nnum, nmot, refine and q <= 4, oracle=orc), orc, order, elem))
 
     # ---- lines
     for pts in ([0, 1, 3, 4], [0, 2, 3, 7, 8], [1, 2, 4]):
@@ -618,8 +820,8 @@ def gen_integrate(tier, rng):
                 mons = [a for a in monomials_upto(d, q) if sum(a) == q]
                 alpha = mons[int(rng.integers(len(mons)))]
                 v = base_variant(kind, p, t, reg, alpha)
-                frecs.append(rec_integrate(kind, fam, with_variants(v, rng, 1, 1, refine and oracle == 'cells'),
-                                           oracle, q, None))
+                frecs.append(rec_integrate(kind, fam, with_variants(v, rng, 1, 1, refine and oracle == 'cells',
+                                                                    oracle=oracle), oracle, q, None))
 
     p, t = U.line_points([0, 1, 3, 4])
     addf('line', 'U1-facets', p, t, (0, 1, 3), refine=False)
@@ -653,6 +855,7 @@ def gen_integrate(tier, rng):
 def gen_masssum(tier, rng):
     recs = []
     big = tier == 'thorough'
+    route = [int(rng.integers(0, len(ROUTES)))]
 
     def add(kind, fam, p, t, elems, second=0, facets=False, nsub=1):
         nt = np.asarray(t).shape[1]
@@ -662,9 +865,15 @@ def gen_masssum(tier, rng):
         for en in elems:
             for reg in regs:
                 v = base_variant(kind, p, t, reg, [0] * DIM[kind], second=second)
-                vs = [v, numbering_variant(v, rng, flip=not second), motion_variant(v, rng, translate=True)]
+                vs = [v, numbering_variant(v, rng, flip=not second), motion_variant(v, rng, translate=True),
+                      moved_variant(v, rng, int_only=bool(second))]
                 if reg['mode'] in ('all', 'boundary') and kind != 'wedge' and not second:
                     vs.append(refine_variant(v))
+                # every way of assembling the same form must give the same numbers: one route per variant, all routes
+                # in turn over the scenarios
+                for w in vs:
+                    w['how'] = ROUTES[route[0] % len(ROUTES)]
+                    route[0] += 1
                 recs.append({'driver': 'masssum', 'kind': kind, 'family': fam, 'variants': vs, 'elem': en, 'order': None})
 
     p, t = U.line_points([0, 1, 3, 4])
@@ -705,19 +914,31 @@ def gen_entries(tier, rng):
     recs = []
     big = tier == 'thorough'
 
-    def add(kind, fam, p, t):
+    route = [int(rng.integers(0, len(ROUTES)))]
+
+    def add(kind, fam, p, t, all_routes=False):
         for en in PK[kind]:
-            for form in ('mass', 'laplace', 'load'):
+            for form in ('mass', 'laplace', 'load', 'loadx'):
                 if form == 'laplace' and en.endswith('P0'):
                     continue
                 v = base_variant(kind, p, t, {'dom': 'cells', 'mode': 'all'}, [0] * DIM[kind])
-                vs = [v, numbering_variant(v, rng)]
+                if all_routes:                       # the same form on the same mesh through every route
+                    if en.endswith('P0'):
+                        continue
+                    vs = [dict(v, how=h, rel='none') for h in ROUTES]
+                else:
+                    vs = [v, numbering_variant(v, rng), moved_variant(v, rng, int_only=True)]
+                    for w in vs:
+                        w['how'] = ROUTES[route[0] % len(ROUTES)]
+                        route[0] += 1
                 recs.append({'driver': 'entries', 'kind': kind, 'family': fam, 'variants': vs, 'elem': en, 'form': form})
 
     p, t = U.line_points([0, 1, 3, 4])
     add('line', 'U1', p, t)
+    add('line', 'routes', p, t, all_routes=True)
     p, t = U.tri_lattice(2, 1, (0, 1))
     add('tri', 'U2t', p, t)
+    add('tri', 'routes', p * np.array([[2], [3]]), t, all_routes=True)
     p, t = U.tri_lattice(1, 1, (0,), )
     add('tri', 'U2t-345', p * np.array([[3], [4]]), t)
     p, t = U.delaunay_int(2, 6, 3, rng)
